@@ -29,8 +29,8 @@ def load_repo(shim=True):
     import message, crypto      # noqa
     mods = {'message': message, 'crypto': crypto}
     try:
-        import xfrm, ikesa, configuration, ikesacontroller      # noqa
-        mods.update(xfrm=xfrm, ikesa=ikesa, configuration=configuration, ikesacontroller=ikesacontroller)
+        import xfrm, ikesa, configuration, ikesacontroller, netlink      # noqa
+        mods.update(xfrm=xfrm, ikesa=ikesa, configuration=configuration, ikesacontroller=ikesacontroller, netlink=netlink)
     except Exception:
         traceback.print_exc()
         raise
